@@ -854,6 +854,21 @@ func (x *Exec) execSlice(fr *Frame, n *Node, st *State, in *ssa.Slice) {
 		}
 		x.safety(fr, n, mkAnd(app("<=", "0", lo), app("<=", lo, hi), app("<=", hi, intLit(arr.Len()))), "slice-bounds", in.Pos())
 		x.setVal(fr, n, in, Term{S: app("mk_Slice", ref.S, lo, app("-", hi, lo), app("-", intLit(arr.Len()), lo)), Sort: SSlice})
+		if arr.Len() <= 8 && in.Low == nil && in.High == nil {
+			// the varargs idiom (new [k]T; stores; slice): seed the specification-level access terms of the k cells
+			// (instances of the defining axiom of uf_at) and remember them for later heap versions
+			h := x.heapElem(arr.Elem())
+			es := x.ss.sortOf(arr.Elem())
+			sv := fr.vals[in].S
+			hv := x.get(st, h).S
+			if simpleConst(sv) || len(sv) < 200 {
+				for k := int64(0); k < arr.Len(); k++ {
+					idx := intLit(k)
+					n.assume(mkEq(x.elemAt(h, hv, sv, idx, es), app("select", app("select", hv, ref.S), idx)))
+					x.noteLoad(h, sv, idx, es)
+				}
+			}
+		}
 	default:
 		fr.vals[in] = x.fresh("slice", in.Type())
 	}
